@@ -515,5 +515,236 @@ theorem project_preserves_integral (pi : K) (g : Grid K) (remove : List Bool) (d
           congr 1
   rw [hret]
 
+/-! ### 3. conversions between cell, grid and Cartesian coordinates -/
+
+/-- **C12** cell -> grid and grid -> cell are mutually inverse along an axis -/
+theorem cell_grid_inverse (lo d : K) (hd : d ≠ 0) (c x : K) :
+    gridToCell1 lo d (cellToGrid1 lo d c) = c ∧ cellToGrid1 lo d (gridToCell1 lo d x) = x := by
+  unfold gridToCell1 cellToGrid1
+  constructor <;> field_simp <;> ring
+
+theorem Grid.dxOf_ne_zero (g : Grid K) (a : Axis K) (h : a.WF g.cls) : g.dxOf a ≠ 0 := by
+  unfold Grid.dxOf
+  cases hc : g.cls <;> simp only
+  · simp [unitDx]
+  all_goals exact (dx_pos a.lo a.hi a.n h.2.1 h.1).ne'
+
+/-- the same for whole points on a grid of any class and dimension -/
+theorem cell_grid_inverse_points (g : Grid K) (h : ∀ a ∈ g.axes, a.WF g.cls) (p : List K)
+    (hl : p.length = g.axes.length) :
+    g.gridToCell (g.cellToGrid p) = p ∧ g.cellToGrid (g.gridToCell p) = p := by
+  unfold Grid.gridToCell Grid.cellToGrid
+  generalize g.axes = as at h hl
+  induction as generalizing p with
+  | nil => cases p <;> simp_all
+  | cons a as ih =>
+    cases p with
+    | nil => simp at hl
+    | cons x xs =>
+      have hd := g.dxOf_ne_zero a (h a List.mem_cons_self)
+      obtain ⟨i1, i2⟩ := ih xs (fun b hb => h b (List.mem_cons_of_mem _ hb)) (by simpa using hl)
+      obtain ⟨e1, e2⟩ := cell_grid_inverse a.lo (g.dxOf a) hd x x
+      simp only [List.zipWith_cons_cons, i1, i2, e1, e2, and_self]
+
+/-- **C12** the centre of cell `i` has cell coordinate `i + 1/2` -/
+theorem centre_maps_to_half_integer (lo hi : K) (n i : ℕ) (h : lo < hi) (hn : n ≠ 0) :
+    gridToCell1 lo (dx lo hi n) (centre lo hi n i) = (i : K) + 1 / 2 := by
+  have hd := (dx_pos lo hi n h hn).ne'
+  unfold gridToCell1 centre; rw [half_eq]; field_simp; ring
+
+/-- the same through `grid.transform` of every class (also `UnitGrid`'s literal centres) -/
+theorem centre_maps_to_half_integer_grid (g : Grid K) (a : Axis K) (i : ℕ) (h : a.WF g.cls) :
+    gridToCell1 a.lo (g.dxOf a) (g.centreOf a i) = (i : K) + 1 / 2 := by
+  unfold Grid.dxOf Grid.centreOf
+  cases hc : g.cls <;> simp only
+  · obtain ⟨h0, _⟩ := h.2.2 hc
+    unfold gridToCell1 unitDx unitCentre; rw [half_eq, h0]; simp
+  all_goals exact centre_maps_to_half_integer a.lo a.hi a.n i h.2.1 h.1
+
+/-- **C12** algebraic part of polar <-> Cartesian: the image of `(r, φ)` has squared norm `r^2` -/
+theorem cart_polar_roundtrip (r c s : K) (h : c ^ 2 + s ^ 2 = 1) :
+    normSq (polarToCart r c s) = r ^ 2 := by
+  simp only [polarToCart, normSq]; push_cast
+  have : r * c * (r * c) + (r * s * (r * s) + 0) = r ^ 2 * (c ^ 2 + s ^ 2) := by ring
+  rw [this, h, mul_one]
+
+theorem cart_cyl_roundtrip (r c s z : K) (h : c ^ 2 + s ^ 2 = 1) :
+    normSq ((cylToCart r c s z).take 2) = r ^ 2 ∧ (cylToCart r c s z).drop 2 = [z] := by
+  refine ⟨?_, rfl⟩
+  simp only [cylToCart, List.take, normSq]; push_cast
+  have : r * c * (r * c) + (r * s * (r * s) + 0) = r ^ 2 * (c ^ 2 + s ^ 2) := by ring
+  rw [this, h, mul_one]
+
+theorem cart_sph_roundtrip (r ct st cp sp : K) (h1 : ct ^ 2 + st ^ 2 = 1) (h2 : cp ^ 2 + sp ^ 2 = 1) :
+    normSq (sphToCart r ct st cp sp) = r ^ 2 := by
+  simp only [sphToCart, normSq]; push_cast
+  have : r * st * cp * (r * st * cp) + (r * st * sp * (r * st * sp) + (r * ct * (r * ct) + 0))
+      = r ^ 2 * (st ^ 2 * (cp ^ 2 + sp ^ 2) + ct ^ 2) := by ring
+  rw [this, h2, mul_one, add_comm, h1, mul_one]
+
+/-- a non-negative number is determined by its square (what `hypot`/`norm` must return) -/
+theorem radius_unique (r r' : K) (h : 0 ≤ r) (h' : 0 ≤ r') (e : r' ^ 2 = r ^ 2) : r' = r := by
+  exact (sq_eq_sq₀ h' h).mp e
+
+/-- grid -> Cartesian -> grid is the identity on the symmetric grids (radius `≥ 0`), for any
+`r'` the external `hypot`/`norm` can return (`r' ≥ 0`, `r'^2 = x^2+y^2(+z^2)`) -/
+theorem grid_cart_grid (g : Grid K) (r z r' : K) (hr : 0 ≤ r) (hr' : 0 ≤ r') :
+    (g.cls = .polar → r' ^ 2 = g.radiusSq (g.toCartesian [r]) →
+        g.fromCartesian r' (g.toCartesian [r]) = [r]) ∧
+    (g.cls = .spherical → r' ^ 2 = g.radiusSq (g.toCartesian [r]) →
+        g.fromCartesian r' (g.toCartesian [r]) = [r]) ∧
+    (g.cls = .cylindrical → r' ^ 2 = g.radiusSq (g.toCartesian [r, z]) →
+        g.fromCartesian r' (g.toCartesian [r, z]) = [r, z]) := by
+  refine ⟨?_, ?_, ?_⟩ <;> intro hc e <;>
+    simp only [Grid.toCartesian, Grid.radiusSq, Grid.fromCartesian, hc, polarToCart, sphToCart, cylToCart,
+      List.take, normSq, List.drop, List.headD_cons] at e ⊢ <;>
+    push_cast at e <;>
+    · have : r' = r := radius_unique r r' hr hr' (by rw [e]; ring)
+      rw [this]
+
+/-- Cartesian -> grid -> Cartesian is the symmetry projection: it keeps the radius (and `z`) -/
+theorem cart_grid_cart (g : Grid K) (x : List K) (r' : K) (e : r' ^ 2 = g.radiusSq x) :
+    (g.cls = .polar → g.radiusSq (g.toCartesian (g.fromCartesian r' x)) = g.radiusSq x) ∧
+    (g.cls = .spherical → g.radiusSq (g.toCartesian (g.fromCartesian r' x)) = g.radiusSq x) ∧
+    (g.cls = .cylindrical → g.radiusSq (g.toCartesian (g.fromCartesian r' x)) = g.radiusSq x ∧
+        (g.toCartesian (g.fromCartesian r' x)).drop 2 = [(x.drop 2).headD 0]) ∧
+    (g.cls = .unit ∨ g.cls = .cartesian → g.toCartesian (g.fromCartesian r' x) = x) := by
+  refine ⟨?_, ?_, ?_, ?_⟩
+  · intro hc; rw [← e]
+    simp only [Grid.toCartesian, Grid.radiusSq, Grid.fromCartesian, hc, polarToCart, List.take, normSq]
+    push_cast; ring
+  · intro hc; rw [← e]
+    simp only [Grid.toCartesian, Grid.radiusSq, Grid.fromCartesian, hc, sphToCart, List.take, normSq]
+    push_cast; ring
+  · intro hc; rw [← e]
+    simp only [Grid.toCartesian, Grid.radiusSq, Grid.fromCartesian, hc, cylToCart, List.take, normSq,
+      List.drop]
+    push_cast
+    exact ⟨by ring, rfl⟩
+  · rintro (hc | hc) <;> simp [Grid.toCartesian, Grid.fromCartesian, hc]
+
+/-! #### containment and random points -/
+
+theorem containsCell_iff (ns : List ℕ) (cs : List K) (hl : cs.length = ns.length) :
+    containsCell ns cs = true ↔ ∀ p ∈ ns.zip cs, (0 : K) ≤ p.2 ∧ p.2 ≤ (p.1 : K) := by
+  induction ns generalizing cs with
+  | nil => cases cs <;> simp [containsCell]
+  | cons n ns ih =>
+    cases cs with
+    | nil => simp at hl
+    | cons c cs =>
+      simp only [containsCell, Bool.and_eq_true, decide_eq_true_eq, Nat.cast_zero, List.zip_cons_cons,
+        List.mem_cons, forall_eq_or_imp, ih cs (by simpa using hl)]
+
+/-- a coordinate within the bounds has a cell coordinate in `[0, N]` -/
+theorem cell_coord_in_range (lo hi : K) (n : ℕ) (h : lo < hi) (hn : n ≠ 0) (x : K)
+    (h1 : lo ≤ x) (h2 : x ≤ hi) :
+    0 ≤ gridToCell1 lo (dx lo hi n) x ∧ gridToCell1 lo (dx lo hi n) x ≤ (n : K) := by
+  have hd := dx_pos lo hi n h hn
+  have hN : (0 : K) < n := Nat.cast_pos.mpr (Nat.pos_of_ne_zero hn)
+  have e : (n : K) * dx lo hi n = hi - lo := by unfold dx; field_simp
+  unfold gridToCell1
+  constructor
+  · exact div_nonneg (by linarith) hd.le
+  · rw [div_le_iff₀ hd]; linarith
+
+theorem cell_coord_in_range_grid (g : Grid K) (a : Axis K) (hw : a.WF g.cls) (x : K)
+    (h1 : a.lo ≤ x) (h2 : x ≤ a.hi) :
+    0 ≤ gridToCell1 a.lo (g.dxOf a) x ∧ gridToCell1 a.lo (g.dxOf a) x ≤ (a.n : K) := by
+  have key := cell_coord_in_range a.lo a.hi a.n hw.2.1 hw.1 x h1 h2
+  unfold Grid.dxOf
+  cases hc : g.cls <;> simp only
+  · obtain ⟨h0, h1'⟩ := hw.2.2 hc
+    have : (unitDx : K) = dx a.lo a.hi a.n := by
+      have := (unit_eq_cartesian (K := K) a.n 0 hw.1).1
+      rw [h0, h1']; simpa using this
+    rw [this]; exact key
+  all_goals exact key
+
+/-- points whose grid coordinates lie within the bounds are contained (every class, every
+dimension) -/
+theorem contains_of_in_bounds (g : Grid K) (h : ∀ a ∈ g.axes, a.WF g.cls) (p : List K)
+    (hl : p.length = g.axes.length) (hb : ∀ q ∈ g.axes.zip p, q.1.lo ≤ q.2 ∧ q.2 ≤ q.1.hi) :
+    g.containsGrid p = true := by
+  unfold Grid.containsGrid Grid.shape Grid.gridToCell
+  generalize g.axes = as at h hl hb
+  induction as generalizing p with
+  | nil => cases p <;> simp [containsCell]
+  | cons a as ih =>
+    cases p with
+    | nil => simp at hl
+    | cons x xs =>
+      have hw := h a List.mem_cons_self
+      have hx := hb (a, x) (by simp)
+      have hrec := ih xs (fun b hb' => h b (List.mem_cons_of_mem _ hb')) (by simpa using hl)
+        (fun q hq => hb q (by simp only [List.zip_cons_cons, List.mem_cons]; exact Or.inr hq))
+      have key := cell_coord_in_range_grid g a hw x hx.1 hx.2
+      simp only [List.map_cons, List.zipWith_cons_cons, containsCell, Bool.and_eq_true, decide_eq_true_eq,
+        Nat.cast_zero, hrec, and_true]
+      exact key
+
+/-- the Cartesian draw `pos + u * size` of the buffered cuboid respects the boundary distance -/
+theorem randomCoord_in_bounds (lo hi b u : K) (hb : 0 ≤ b) (h2 : 2 * b < hi - lo) (hu0 : 0 ≤ u)
+    (hu1 : u ≤ 1) :
+    lo + b ≤ randomCoord lo hi b u ∧ randomCoord lo hi b u ≤ hi - b := by
+  unfold randomCoord; push_cast
+  constructor <;> nlinarith
+
+theorem uniformDraw_in_bounds (a b u : K) (hab : a ≤ b) (hu0 : 0 ≤ u) (hu1 : u ≤ 1) :
+    a ≤ uniformDraw a b u ∧ uniformDraw a b u ≤ b := by
+  unfold uniformDraw
+  constructor <;> nlinarith
+
+/-- the radial draw: `r = uniform(r_min^d, r_max^d)^(1/d)`, i.e. any `r ≥ 0` whose `d`-th power is
+the uniform draw, lies in `[r_min, r_max]` -/
+theorem radial_draw_in_bounds (d : ℕ) (hd : d ≠ 0) (rmin rmax r u : K) (h0 : 0 ≤ rmin)
+    (hle : rmin ≤ rmax) (hr : 0 ≤ r) (hu0 : 0 ≤ u) (hu1 : u ≤ 1)
+    (e : r ^ d = uniformDraw (rmin ^ d) (rmax ^ d) u) : rmin ≤ r ∧ r ≤ rmax := by
+  have hp : rmin ^ d ≤ rmax ^ d := pow_le_pow_left₀ h0 hle d
+  obtain ⟨h1, h2⟩ := uniformDraw_in_bounds _ _ u hp hu0 hu1
+  rw [← e] at h1 h2
+  exact ⟨(pow_le_pow_iff_left₀ h0 hr hd).mp h1, (pow_le_pow_iff_left₀ hr (h0.trans hle) hd).mp h2⟩
+
+/-- **C12** points generated by `get_random_point` are contained in the grid.
+Cartesian grids (any dimension): the point `pos + u * size` of the buffered cuboid.
+Radial axes: the drawn radius lies in `[r_min, r_max] ⊆ [r_inner, r_outer]`, hence (with
+`contains_of_in_bounds`) the point is contained. -/
+theorem random_point_contained (g : Grid K) (h : ∀ a ∈ g.axes, a.WF g.cls) (b : K) (us : List K)
+    (hb : 0 ≤ b) (hsz : ∀ a ∈ g.axes, 2 * b < a.hi - a.lo) (hl : us.length = g.axes.length)
+    (hu : ∀ u ∈ us, 0 ≤ u ∧ u ≤ 1) :
+    g.containsGrid (g.axes.zipWith (fun a u => randomCoord a.lo a.hi b u) us) = true := by
+  apply contains_of_in_bounds g h
+  · simp [hl]
+  · intro q hq
+    generalize g.axes = as at hsz hl hq
+    induction as generalizing us with
+    | nil => simp at hq
+    | cons a as ih =>
+      cases us with
+      | nil => simp at hl
+      | cons u us =>
+        simp only [List.zipWith_cons_cons, List.zip_cons_cons, List.mem_cons] at hq
+        rcases hq with rfl | hq
+        · obtain ⟨h1, h2⟩ := randomCoord_in_bounds a.lo a.hi b u hb (hsz a List.mem_cons_self)
+            (hu u List.mem_cons_self).1 (hu u List.mem_cons_self).2
+          constructor <;> simp only <;> linarith
+        · exact ih us (fun v hv => hu v (List.mem_cons_of_mem _ hv))
+            (fun c hc => hsz c (List.mem_cons_of_mem _ hc)) (by simpa using hl) hq
+
+/-- radial version: a radius drawn by the spherical / cylindrical `get_random_point` is contained -/
+theorem random_radius_contained (a : Axis K) (c : GridClass) (hw : a.WF c) (hnu : c ≠ .unit)
+    (h0 : 0 ≤ a.lo) (d : ℕ) (hd : d ≠ 0) (b r u : K) (avoid : Bool) (hb : 0 ≤ b)
+    (hr : 0 ≤ r) (hu0 : 0 ≤ u) (hu1 : u ≤ 1)
+    (hle : (randomRadialBounds a.lo a.hi b avoid).1 ≤ (randomRadialBounds a.lo a.hi b avoid).2)
+    (e : r ^ d = uniformDraw ((randomRadialBounds a.lo a.hi b avoid).1 ^ d)
+      ((randomRadialBounds a.lo a.hi b avoid).2 ^ d) u) :
+    0 ≤ gridToCell1 a.lo (dx a.lo a.hi a.n) r ∧ gridToCell1 a.lo (dx a.lo a.hi a.n) r ≤ (a.n : K) := by
+  have hmin : a.lo ≤ (randomRadialBounds a.lo a.hi b avoid).1 := by
+    unfold randomRadialBounds; cases avoid <;> simp [hb]
+  have hmax : (randomRadialBounds a.lo a.hi b avoid).2 ≤ a.hi := by
+    unfold randomRadialBounds; simp [hb]
+  obtain ⟨h1, h2⟩ := radial_draw_in_bounds d hd _ _ r u (h0.trans hmin) hle hr hu0 hu1 e
+  exact cell_coord_in_range a.lo a.hi a.n hw.2.1 hw.1 r (hmin.trans h1) (h2.trans hmax)
+
 end
 end PdeVerif.Grids
